@@ -31,6 +31,15 @@ def _question_heavy(case: Dict[str, Any], n: int, seed: int, keep_records: int) 
     return case
 
 
+
+def FLAKY_IS_VIOLATION(case: Any) -> bool:
+    """This check is a pure function of the case (no clock, no threads, no randomness outside the case): when a violation is
+    observed and the very same case passes on Hypothesis' re-run, the library has carried state from an earlier case into
+    this one (a process-wide memo, a shared container) - on a correct tree the objects of one case cannot affect the next.
+    What was seen stands."""
+    return True
+
+
 def strategy(tier: str):
     from hypothesis import strategies as st
 
